@@ -85,20 +85,22 @@ func Snapshot(r *samlp.AuthnRequestType) *ReqSnapshot {
 
 // Fault kinds.
 const (
-	FaultError       = "error"
-	FaultNilRecord   = "nil_record"
-	FaultKeyNoCert   = "key_without_certificate"
-	FaultCertNoKey   = "certificate_without_key"
-	FaultEmptyCert   = "empty_certificate"
-	FaultGarbageCert = "garbage_certificate"  // unjudged stress kind
-	FaultCtx         = "context_cancelled"    // the request's context was cancelled when the call was made
-	FaultPartial     = "partial_then_error"   // user lookups: part of the record is delivered, then the call fails
-	FaultTimeout     = "timeout_error"        // the call fails with a timeout-class error that wraps context.DeadlineExceeded
-	FaultPoolClosed  = "pool_closed_error"    // the call fails with an error that wraps context.Canceled
-	FaultNilNil      = "nil_without_error"    // lookups: no record and no error
-	FaultTemporary   = "temporary_error"      // the call fails with a Temporary()/Timeout() error that wraps no context error
-	FaultPanicString = "panics_with_a_string" // the storage itself crashes: panic("...") / log.Panicf
-	FaultPanicError  = "panics_with_an_error" // the storage itself crashes: panic(err)
+	FaultError          = "error"
+	FaultNilRecord      = "nil_record"
+	FaultKeyNoCert      = "key_without_certificate"
+	FaultCertNoKey      = "certificate_without_key"
+	FaultEmptyCert      = "empty_certificate"
+	FaultGarbageCert    = "garbage_certificate"  // unjudged stress kind
+	FaultCtx            = "context_cancelled"    // the request's context was cancelled when the call was made
+	FaultPartial        = "partial_then_error"   // user lookups: part of the record is delivered, then the call fails
+	FaultTimeout        = "timeout_error"        // the call fails with a timeout-class error that wraps context.DeadlineExceeded
+	FaultPoolClosed     = "pool_closed_error"    // the call fails with an error that wraps context.Canceled
+	FaultNilNil         = "nil_without_error"    // lookups: no record and no error
+	FaultTemporary      = "temporary_error"      // the call fails with a Temporary()/Timeout() error that wraps no context error
+	FaultRecordAndError = "record_and_error"     // lookups: a usable (possibly stale) record comes back together with an error
+	FaultTypedNil       = "typed_nil_and_error"  // AuthRequestByID: a nil pointer inside the interface together with an error
+	FaultPanicString    = "panics_with_a_string" // the storage itself crashes: panic("...") / log.Panicf
+	FaultPanicError     = "panics_with_an_error" // the storage itself crashes: panic(err)
 )
 
 // PanicMarker is contained in the value of every panic the simulated storage raises.
@@ -512,6 +514,16 @@ func (w *World) GetEntityByID(ctx context.Context, entityID string) (*servicepro
 		if f == FaultNilNil {
 			return nil, nil
 		}
+		if f == FaultRecordAndError {
+			w.mu.Lock()
+			k := entityID
+			if w.Tenanted {
+				k = provider.IssuerFromContext(ctx) + "|" + entityID
+			}
+			sp := w.sps[k]
+			w.mu.Unlock()
+			return sp, ErrInjected
+		}
 		return nil, errFor(f)
 	}
 	w.mu.Lock()
@@ -586,6 +598,17 @@ func (w *World) AuthRequestByID(ctx context.Context, id string) (models.AuthRequ
 	w.delay("AuthRequestByID")
 	if f := w.fault(ctx, "AuthRequestByID"); f != "" {
 		w.log(Event{Tag: TagOf(ctx), Op: "AuthRequestByID", Args: []string{id}, Res: f, Err: true})
+		switch f {
+		case FaultRecordAndError:
+			w.mu.Lock()
+			r := w.requests[id]
+			w.mu.Unlock()
+			if r != nil {
+				return &reqView{w: w, tag: TagOf(ctx), r: r}, ErrInjected
+			}
+		case FaultTypedNil:
+			return (*reqView)(nil), ErrInjected
+		}
 		return nil, errFor(f)
 	}
 	w.mu.Lock()
